@@ -13,6 +13,7 @@ class GhostMixin:
     def init_ghost(self):
         self.g_out = self.heap.alloc(ListObj([]))
         self.g_enc = 0
+        self.g_nencode = 0          # number of Encoder.encode calls (one per emitted header block, C13)
         self.g_nframes = 0          # number of frames ever serialised (survives a loop havoc of g_out)
         self.g_ngoaway = 0          # ... of which GOAWAY frames (C18: exactly one per connection error)
         self.g_dec = 0
